@@ -14,6 +14,14 @@ MACROS = {
         "and forall(0, len(c.min), lambda j: forall(j, len(c.min), lambda k: abs(c.min[k]) <= abs(c.min[j]))) "
         "and forall(c.depth[0], len(c.min), lambda k: c.min[k] == 0)")),
 }
+# Content of the accumulator (C04: no event lost, duplicated or credited to another cell), for an ARBITRARY key KEY (ghost
+# parameter, universally quantified): W(c) is the total value stored under KEY; KEYED(c) says every stored entry has a
+# non-negative key and carries the cell (ROWOF(key), COLOF(key)) that its key stands for (ROWOF/COLOF arbitrary functions).
+MACROS["W"] = (["c"], "ksum(c.key, c.val, KEY, 0, c.ind[0])")
+MACROS["KEYED"] = (["c"], "forall(0, c.ind[0], lambda p: c.key[p] >= 0) and forall(0, c.ind[0], lambda p: c.row[p] == ROWOF(c.key[p])) "
+                           "and forall(0, c.ind[0], lambda p: c.col[p] == COLOF(c.key[p]))")
+GHOST = {"KEY": "int", "ROWOF": "fn(int)->int", "COLOF": "fn(int)->int"}
+CONTRACTS["lemma::ksum"] = dict(lemma=True)
 LIMIT = {"COO_QUICKSORT_LIMIT": "int; COO_QUICKSORT_LIMIT >= 1"}
 # The run stack `min` has 2*ceil(log2(N)) slots; a new level is opened at most once per call.  That the
 # stack never fills up (depth stays O(log #sorts); exceeding it needs > LIMIT*N^2 appends) is ASSUMED.
@@ -30,17 +38,51 @@ _INNER = [  # invariant of the three merge loops of one level
     "a0 <= ptr1 and ptr1 <= coo.min[i] and coo.min[i] <= ptr2 and ptr2 <= coo.ind[0]",
     "0 <= result_ptr and result_ptr <= (ptr1 - a0) + (ptr2 - coo.min[i])",
     "len(result_row) == array_len and len(result_col) == array_len and len(result_val) == array_len and len(result_key) == array_len",
+    # content: the result slots 0..result_ptr hold exactly what has been consumed from the two runs (slot 0 is a sentinel
+    # with key -1 and value 0 that no real - non-negative - key ever matches)
+    "result_key[0] == -1 and result_val[0] == 0",
+    "ksum(result_key, result_val, KEY, 0, result_ptr + 1) == ksum(coo.key, coo.val, KEY, a0, ptr1) + ksum(coo.key, coo.val, KEY, coo.min[i], ptr2)",
+    # the result arrays are float64 (np.zeros without dtype): gkey is a ghost int64 mirror of result_key, so that "the stored keys are
+    # the integer keys that were read" needs no reasoning about truncation
+    "len(gkey) == array_len",
+    "forall(1, result_ptr + 1, lambda p: result_key[p] == gkey[p] and gkey[p] >= 0)",
+    "forall(1, result_ptr + 1, lambda p: result_row[p] == ROWOF(gkey[p]))",
+    "forall(1, result_ptr + 1, lambda p: result_col[p] == COLOF(gkey[p]))",
 ]
+_RSNAP = "rk = result_key.copy()\nrv = result_val.copy()"
+_RLEMMA = "lemma(ksum_shift(rk, rv, 0, result_key, result_val, 0, KEY, result_ptr))"
 
 CONTRACTS[F + "merge_sum_duplicates"] = dict(
     params=dict(coo="coo"),
     symbolic_consts=LIMIT,
-    requires=["WF(coo)"],
+    ghost_params=GHOST,
+    requires=["WF(coo)", "KEYED(coo)"],
     assumed_requires=ROOM,
     modifies=["coo"],
     returns="none",
-    ensures=_MERGE_POST,
-    ghost_after=[("ptr1 = np.abs(coo.min[i + 1])", 1, "a0 = ptr1")],
+    ensures=_MERGE_POST + ["W(coo) == old(W(coo))", "KEYED(coo)"],
+    ghost_after=[
+        ("ptr1 = np.abs(coo.min[i + 1])", 1,
+         "a0 = ptr1\n"
+         "lemma(ksum_split(coo.key, coo.val, KEY, 0, a0, coo.ind[0]))\n"
+         "lemma(ksum_split(coo.key, coo.val, KEY, a0, coo.min[i], coo.ind[0]))"),
+        # every store into the result arrays goes to slot result_ptr: the keyed sum of the slots below is unchanged
+        ("@augassign:ptr1", 1, _RSNAP), ("@augassign:ptr1", 2, _RSNAP), ("@augassign:ptr2", 1, _RSNAP), ("@augassign:ptr2", 2, _RSNAP),
+        ("@assign:result_key", 1, "gkey = np.zeros(array_len, dtype=np.int64)"),
+    ] + [("@store:result_val", n, _RLEMMA) for n in range(1, 7)]
+      + [("@store:result_key", n, _RLEMMA + "\ngkey[result_ptr] = coo.key[this_ptr]") for n in range(2, 5)] + [
+        # copy back: slots 1..result_ptr of the result arrays replace [a0, ind); everything below a0 is untouched
+        ("@store:coo.row", 1, "bk = coo.key.copy()\nbv = coo.val.copy()"),
+        ("@store:coo.ind", 1,
+         "lemma(ksum_shift(bk, bv, 0, coo.key, coo.val, 0, KEY, a0))\n"
+         "lemma(ksum_shift(result_key, result_val, 1, coo.key, coo.val, a0, KEY, result_ptr))\n"
+         "lemma(ksum_split(result_key, result_val, KEY, 0, 1, result_ptr + 1))\n"
+         "lemma(ksum_split(coo.key, coo.val, KEY, 0, a0, a0 + result_ptr))\n"
+         # what was copied back, stated entry by entry over the integer mirror (so that KEYED needs no reasoning about truncation)
+         "assert forall(a0, a0 + result_ptr, lambda p: coo.key[p] == gkey[p - a0 + 1])\n"
+         "assert forall(a0, a0 + result_ptr, lambda p: coo.row[p] == ROWOF(gkey[p - a0 + 1]))\n"
+         "assert forall(a0, a0 + result_ptr, lambda p: coo.col[p] == COLOF(gkey[p - a0 + 1]))"),
+    ],
     loops={
         "for#1": dict(invariant=[
             "new_depth",
@@ -48,6 +90,7 @@ CONTRACTS[F + "merge_sum_duplicates"] = dict(
             "coo.depth[0] == old(coo.depth[0])",
             "forall(0, len(coo.min), lambda k: coo.min[k] == old(coo.min)[k])",
             "forall(i, len(coo.min), lambda k: abs(coo.min[k]) <= coo.ind[0])",
+            "W(coo) == old(W(coo))", "KEYED(coo)",
         ]),
         "while#1": dict(invariant=_INNER, decreases="coo.min[i] - ptr1 + coo.ind[0] - ptr2"),
         "while#2": dict(invariant=_INNER, decreases="coo.ind[0] - ptr2"),
@@ -58,11 +101,12 @@ CONTRACTS[F + "merge_sum_duplicates"] = dict(
 CONTRACTS[F + "merge_all_sum_duplicates"] = dict(
     params=dict(coo="coo"),
     symbolic_consts=LIMIT,
-    requires=["WF(coo)"],
+    ghost_params=GHOST,
+    requires=["WF(coo)", "KEYED(coo)"],
     assumed_requires=ROOM,
     modifies=["coo"],
     returns="none",
-    ensures=_MERGE_POST,
+    ensures=_MERGE_POST + ["W(coo) == old(W(coo))", "KEYED(coo)"],
     loops={
         "for#1": dict(invariant=[
             "0 <= ptr and ptr <= i and len(new_min) == coo.depth[0]",
@@ -75,14 +119,34 @@ CONTRACTS[F + "merge_all_sum_duplicates"] = dict(
     },
 )
 
+_KEYED_AT = "coo.key[{p}] >= 0 and coo.row[{p}] == ROWOF(coo.key[{p}]) and coo.col[{p}] == COLOF(coo.key[{p}])"
+_FLUSH_SNAP = "bk = coo.key.copy()\nbv = coo.val.copy()"
+_FLUSH_LEMMA = "lemma(ksum_shift(bk, bv, lower_lim, coo.key, coo.val, lower_lim, KEY, sum_ind - lower_lim))"
 CONTRACTS[F + "coo_sum_duplicates"] = dict(
     params=dict(coo="coo"),
     symbolic_consts=LIMIT,
-    requires=["WF(coo)"],
+    ghost_params=GHOST,
+    requires=["WF(coo)", "KEYED(coo)"],
     assumed_requires=ROOM,
     modifies=["coo"],
     returns="none",
-    ensures=_MERGE_POST,
+    ensures=_MERGE_POST + ["W(coo) == old(W(coo))", "KEYED(coo)"],
+    ghost_after=[
+        # the sort: the stretch [lower_lim, upper_lim) is permuted (argsort's stated contract: an injection of [0,n) into itself),
+        # everything below it is untouched; gk/gv name the arrays as they are after the sort
+        ("@store:coo.key", 1,
+         "lemma(ksum_perm(old(coo.key), old(coo.val), coo.key, coo.val, perm, KEY, lower_lim, upper_lim - lower_lim))\n"
+         "lemma(ksum_shift(old(coo.key), old(coo.val), 0, coo.key, coo.val, 0, KEY, lower_lim))\n"
+         "lemma(ksum_split(old(coo.key), old(coo.val), KEY, 0, lower_lim, upper_lim))\n"
+         "gk = coo.key.copy()\ngv = coo.val.copy()"),
+        # a flush writes slot sum_ind only: the keyed sum of the slots below it is unchanged
+        ("@store:coo.row", 2, _FLUSH_SNAP), ("@store:coo.key", 2, _FLUSH_LEMMA),
+        ("@store:coo.row", 3, _FLUSH_SNAP), ("@store:coo.key", 3, _FLUSH_LEMMA),
+        ("@store:coo.ind", 1,
+         "lemma(ksum_shift(gk, gv, 0, coo.key, coo.val, 0, KEY, lower_lim))\n"
+         "lemma(ksum_split(coo.key, coo.val, KEY, 0, lower_lim, sum_ind))\n"
+         "assert W(coo) == old(W(coo))"),
+    ],
     loops={
         "for#1": dict(invariant=[
             "lower_lim <= sum_ind and sum_ind <= i",
@@ -90,6 +154,14 @@ CONTRACTS[F + "coo_sum_duplicates"] = dict(
             "implies(i == lower_lim, this_key == coo.key[i])",
             "coo.ind[0] == upper_lim and coo.depth[0] == old(coo.depth[0])",
             "forall(0, len(coo.min), lambda k: coo.min[k] == old(coo.min)[k])",
+            # content: written slots + the pending group == what has been read of the sorted stretch; the rest is as sorted
+            "len(gk) == len(coo.key) and len(gv) == len(coo.key)",
+            "forall(0, lower_lim, lambda p: coo.key[p] == gk[p] and coo.val[p] == gv[p])",
+            "forall(i, upper_lim, lambda p: coo.key[p] == gk[p] and coo.val[p] == gv[p])",
+            "ksum(coo.key, coo.val, KEY, lower_lim, sum_ind) + ite(this_key == KEY, this_val, 0) == ksum(gk, gv, KEY, lower_lim, i)",
+            "forall(0, sum_ind, lambda p: %s)" % _KEYED_AT.format(p="p"),
+            "forall(i, upper_lim, lambda p: %s)" % _KEYED_AT.format(p="p"),
+            "implies(upper_lim > lower_lim, this_key >= 0 and this_row == ROWOF(this_key) and this_col == COLOF(this_key))",
         ]),
     },
 )
@@ -97,10 +169,14 @@ CONTRACTS[F + "coo_sum_duplicates"] = dict(
 CONTRACTS[F + "coo_increase_mem"] = dict(
     params=dict(coo="coo"),
     symbolic_consts=LIMIT,
+    ghost_params=GHOST,
     requires=["WF(coo)"],
     returns="coo",
+    ghost_exit=["lemma(ksum_shift(old(coo.key), old(coo.val), 0, result.key, result.val, 0, KEY, old(coo.ind[0])))"],
     ensures=[
         "WF(result)",
+        "W(result) == old(W(coo))",
+        "implies(old(KEYED(coo)), KEYED(result))",
         "same(result.ind, coo.ind) and same(result.depth, coo.depth)",
         "len(result.key) >= len(coo.key) + 1 and len(result.key) >= COO_QUICKSORT_LIMIT + 1",
         "len(result.min) >= len(coo.min)",
@@ -113,11 +189,23 @@ CONTRACTS[F + "coo_append"] = dict(
     params=dict(coo="coo", tup="(int,int,real,int)"),
     symbolic_consts=LIMIT,
     # slot N-1 is the sentinel: the caller must leave two free slots
-    requires=["WF(coo)", "coo.ind[0] <= len(coo.key) - 2"],
+    ghost_params=GHOST,
+    requires=["WF(coo)", "coo.ind[0] <= len(coo.key) - 2", "KEYED(coo)",
+              # the appended event carries a non-negative key and the cell that key stands for
+              "tup[3] >= 0 and tup[0] == ROWOF(tup[3]) and tup[1] == COLOF(tup[3])"],
     assumed_requires=["coo.depth[0] <= len(coo.min) - 5"],
+    # the passed accumulator is written in place (and possibly superseded by a reallocated one): callers must use the result
+    modifies=["coo"],
     returns="coo",
+    ghost_after=[("@store:coo.row", 1, "bk = coo.key.copy()\nbv = coo.val.copy()"),
+                 ("@store:coo.ind", 1, "lemma(ksum_shift(bk, bv, 0, coo.key, coo.val, 0, KEY, coo.ind[0] - 1))\n"
+                                       "assert W(coo) == old(W(coo)) + ite(tup[3] == KEY, tup[2], 0)")],
     ensures=[
         "WF(result)",
+        # C04: the total stored under every key grows by exactly the appended value (if it is this key) - whatever sorting,
+        # merging or reallocation the call triggered; and every stored entry still carries the cell of its key
+        "W(result) == old(W(coo)) + ite(tup[3] == KEY, tup[2], 0)",
+        "KEYED(result)",
         "result.ind[0] <= len(result.key) - 2",
         "same(result.ind, coo.ind) and same(result.depth, coo.depth)",
     ],
@@ -163,6 +251,7 @@ CONTRACTS[F + "em_update_matrix"] = dict(
     requires=_EM_PRE,
     returns="real[]",
     lemmas=["psum_monotone([len(w) for w in windows])"],
+    modifies=["posterior_data"],
     ensures=["same(result, posterior_data)", "unchanged(prior_data) and unchanged(prior_indices) and unchanged(prior_indptr)"],
     loops={
         "for#1": dict(invariant=_EM_INV),
@@ -171,3 +260,50 @@ CONTRACTS[F + "em_update_matrix"] = dict(
         "for#4": dict(invariant=_EM_INV),
     },
 )
+
+
+# ---------------------------------------------------------------- run-time inputs (engine cross-check, replay search)
+def _ghost_env(g):
+    m = g["MUL"]
+    return dict(KEY=g["KEY"], ROWOF=lambda k: int(k) // m, COLOF=lambda k: int(k) % m)
+
+
+def _gen_coo_state(rng):
+    """An accumulator state reached by the REAL coo_append from an empty buffer (so it is well-formed by construction), with a
+    small sort threshold so that sorting, multi-level merging and growth all happen; keys are col + MUL * row."""
+    import numpy as np
+    import vectorizers.coo_utils as cu
+    limit = rng.choice([2, 3, 4, 8, 1 << 16])
+    n = rng.choice([8, 9, 12, 16, 40])
+    mul = rng.choice([3, 5])
+    coo = cu.CooArray(np.zeros(n, dtype=np.int32), np.zeros(n, dtype=np.int32), np.zeros(n, dtype=np.float32), np.zeros(n, dtype=np.int64),
+                      np.zeros(1, dtype=np.int64), np.zeros(2 * int(np.ceil(np.log2(n))), dtype=np.int64), np.zeros(1, dtype=np.int64))
+    fn = getattr(cu.coo_append, "py_func", cu.coo_append)
+    saved = cu.COO_QUICKSORT_LIMIT
+    cu.COO_QUICKSORT_LIMIT = limit
+    try:
+        for _ in range(rng.choice([0, 1, 2, 3, 5, 7, 11, 20, 35])):
+            if coo.depth[0] > len(coo.min) - 5 or coo.ind[0] > len(coo.key) - 2:
+                break
+            r, c = rng.randrange(3), rng.randrange(mul)
+            coo = fn(coo, (r, c, rng.choice([0.25, 0.5, 1.0, 2.0]), c + mul * r))
+    finally:
+        cu.COO_QUICKSORT_LIMIT = saved
+    keys = sorted({int(k) for k in coo.key[:coo.ind[0]]} | {-1, 0, 1})
+    return coo, mul, dict(__consts__=dict(COO_QUICKSORT_LIMIT=limit), __ghost__=[dict(KEY=k, MUL=mul) for k in keys])
+
+
+def _gen_coo(rng):
+    coo, mul, extra = _gen_coo_state(rng)
+    return dict(extra, coo=coo)
+
+
+def _gen_append(rng):
+    coo, mul, extra = _gen_coo_state(rng)
+    r, c = rng.randrange(3), rng.randrange(mul)
+    return dict(extra, coo=coo, tup=(r, c, rng.choice([0.25, 0.5, 1.0]), c + mul * r))
+
+
+for _f in ("merge_sum_duplicates", "merge_all_sum_duplicates", "coo_sum_duplicates", "coo_increase_mem"):
+    CONTRACTS[F + _f].update(gen_all=_gen_coo, ghost_env=_ghost_env)
+CONTRACTS[F + "coo_append"].update(gen_all=_gen_append, ghost_env=_ghost_env)
